@@ -101,33 +101,53 @@ def selftests(files, cov):
                 return ev
         return ev[:-1]
 
-    for name, fn in (("touch", touch), ("dropmade", dropmade), ("reuse", reuse), ("reported", reported)):
-        cov["selftest_%s_rejected" % name] = vlib.selftest_reject("DestTrace", "DestTrace_c07.cfg", f, fn, timeout=3000)
-        if not cov["selftest_%s_rejected" % name]:
+    # a short prefix of the file is enough (whole runs)
+    ev = vlib.read_ndjson(f)
+    starts = [i for i, e in enumerate(ev) if e["e"] == "reset"]
+    small = os.path.join(os.path.dirname(f), "selftest-src.ndjson")
+    with open(small, "w") as fh:
+        for e in ev[:(starts[30] if len(starts) > 30 else len(ev))]:
+            fh.write(json.dumps(e) + "\n")
+    from concurrent.futures import ThreadPoolExecutor
+    tests = (("touch", touch), ("dropmade", dropmade), ("reuse", reuse), ("reported", reported))
+    with ThreadPoolExecutor(max_workers=4) as ex:
+        def one(it):
+            import time
+            time.sleep(0.05 * it[0])       # vlib names the corrupted copy after the clock
+            return vlib.selftest_reject("DestTrace", "DestTrace_c07.cfg", small, it[1][1], timeout=3000)
+        res = list(ex.map(one, enumerate(tests)))
+    for (name, _), ok in zip(tests, res):
+        cov["selftest_%s_rejected" % name] = ok
+        if not ok:
             raise vlib.Infra("binding self-test '%s' failed: corrupted trace accepted" % name)
 
 
 def run(tier, v):
     quick = tier == "quick"
     cov = {"samples": []}
-    # 1. design
-    cfg = "Dest_c07_quick.cfg" if quick else "Dest_c07_thorough.cfg"
-    r = vlib.tlc("Dest", cfg, timeout=5400, heap="6g", coverage=quick)
-    if not r["ok"]:
-        raise vlib.Infra("Dest violates %s on the design level:\n%s" % (r["violated"], r["out"][-3000:]))
-    cov["states"], cov["transitions"], cov["depth"] = r["distinct"], r["states"], r.get("depth")
+    # 1. design + 2. cases exported by TLC.  DestGen_c07_quick.cfg checks every invariant of Dest on
+    # the quick universe and exports its cases in the same run; the thorough tier adds the large universe.
+    g = vlib.tlc("DestGen", "DestGen_c07_quick.cfg", timeout=5400, heap="6g", coverage=True)
+    if not g["ok"]:
+        raise vlib.Infra("Dest violates %s on the design level:\n%s" % (g["violated"], g["out"][-3000:]))
+    cov["states"], cov["transitions"], cov["depth"] = g["distinct"], g["states"], g.get("depth")
     cov["exhaustive"] = True
-    cov["model_config"] = cfg
-    cov["model_wall_s"] = r["wall_s"]
-    if quick:
-        ac = vlib.action_counts(r["out"])
-        cov["action_counts"] = ac
-        need = ["RecvPlainName", "RecvJsonName", "ArchiveEntry", "GetNewName", "Mkdir", "OpenCreate", "Write", "Finish", "NextRound"]
-        dead = [a for a in need if a in ac and ac[a][1] == 0]
-        if dead:
-            raise vlib.Infra("actions never taken in %s: %s" % (cfg, dead))
-    # 2. cases exported by TLC
-    g = vlib.tlc("DestGen", "DestGen_c07_quick.cfg", timeout=3000, heap="6g")
+    cov["model_config"] = "DestGen_c07_quick.cfg (Dest + case export)"
+    cov["model_wall_s"] = g["wall_s"]
+    ac = vlib.action_counts(g["out"])
+    cov["action_counts"] = ac
+    need = ["Populate", "RecvPlainName", "RecvJsonName", "ArchiveEntry", "GetNewName", "Mkdir", "OpenCreate", "Write", "Finish", "NextRound"]
+    dead = [a for a in need if a not in ac or ac[a][1] == 0]
+    if dead:
+        raise vlib.Infra("actions never taken in DestGen_c07_quick.cfg: %s" % dead)
+    if not quick:
+        r = vlib.tlc("Dest", "Dest_c07_thorough.cfg", timeout=5400, heap="8g")
+        if not r["ok"]:
+            raise vlib.Infra("Dest violates %s on the design level:\n%s" % (r["violated"], r["out"][-3000:]))
+        cov["states_quick_universe"], cov["transitions_quick_universe"] = cov["states"], cov["transitions"]
+        cov["states"], cov["transitions"], cov["depth"] = r["distinct"], r["states"], r.get("depth")
+        cov["model_config"] = "Dest_c07_thorough.cfg; cases exported from DestGen_c07_quick.cfg"
+        cov["model_wall_s"] = r["wall_s"]
     cases = vlib.mbt_lines(g["out"])
     if len(cases) < 1000:
         raise vlib.Infra("MBT export produced only %d cases" % len(cases))
